@@ -1,5 +1,131 @@
 import JF.Driver.Core
+import JF.Model.Composite
 namespace JF.Driver
-/-- component `comp2` (two-level composite-object model; stub until its model is written) -/
-def comp2Comp : Comp := Comp.pure fun _ => "unimplemented"
+open JF JF.Composite
+
+private def fls2 (l : List String) : List Float := l.map fl
+
+private def showUnit2 (u : PUnit Float) : String :=
+  joinSp (u.pos.map bits) ++ " " ++
+  (match u.vel with | some v => "1 " ++ joinSp (v.map bits) | none => "0") ++ " " ++
+  (match u.ts with | some t => s!"1 {bits t.q} {bits t.r}" | none => "0")
+
+/-- unit = pos(d)  ("0" | "1" vel(d))  ("0" | "1" q r); returns the rest of the tokens -/
+private def parseUnit2 (d : Nat) (a : List String) : Option (PUnit Float × List String) :=
+  let pos := fls2 (a.take d)
+  match a.drop d with
+  | "0" :: rest =>
+    match rest with
+    | "0" :: r => some (⟨pos, none, none⟩, r)
+    | "1" :: q :: r :: rr => some (⟨pos, none, some ⟨fl q, fl r⟩⟩, rr)
+    | _ => none
+  | "1" :: rest =>
+    let v := fls2 (rest.take d)
+    match rest.drop d with
+    | "0" :: r => some (⟨pos, some v, none⟩, r)
+    | "1" :: q :: r :: rr => some (⟨pos, some v, some ⟨fl q, fl r⟩⟩, rr)
+    | _ => none
+  | _ => none
+
+private def parseUnits (d : Nat) : Nat → List String → Option (List (PUnit Float) × List String)
+  | 0, a => some ([], a)
+  | k + 1, a =>
+    match parseUnit2 d a with
+    | none => none
+    | some (u, r) =>
+      match parseUnits d k r with
+      | none => none
+      | some (us, rr) => some (u :: us, rr)
+
+private def parseComps (d : Nat) : Nat → List String → Option (List (CObj Float) × List String)
+  | 0, a => some ([], a)
+  | k + 1, a =>
+    match a with
+    | n :: r =>
+      match parseUnits d (nat! n + 1) r with
+      | some (root :: leaves, rr) =>
+        match parseComps d k rr with
+        | none => none
+        | some (cs, r3) => some (⟨root, leaves⟩ :: cs, r3)
+      | _ => none
+    | [] => none
+
+/-- `n x1 … xn` -/
+private def parseNats (a : List String) : Option (List Nat × List String) :=
+  match a with
+  | n :: r => let k := nat! n; if r.length < k then none else some ((r.take k).map nat!, r.drop k)
+  | [] => none
+
+private def parseEv (d : Nat) (a : List String) : Option (Composite.Ev Float) :=
+  match a with
+  | "start" :: i :: rest =>
+    match parseNats rest with
+    | some (P, v) => if v.length == d then some (.start (nat! i) P (fls2 v)) else none
+    | none => none
+  | kind :: q :: r :: rest =>
+    let t : Time Float := ⟨fl q, fl r⟩
+    match kind with
+    | "keep" => match parseNats rest with
+      | some (S, []) => some (.keep t S)
+      | _ => none
+    | "snap" => match parseNats rest with
+      | some (S, [i, j, dd, x]) => some (.snap t S (nat! i) (if j == "-1" then none else some (nat! j)) (nat! dd) (fl x))
+      | _ => none
+    | "exchange" => match parseNats rest with
+      | some (S, [i, j, i', j']) => some (.exchange t S (nat! i) (nat! j) (nat! i') (nat! j'))
+      | _ => none
+    | "pass" => match parseNats rest with
+      | some (S, [iL, iT]) => some (.pass t S (nat! iL) (nat! iT))
+      | _ => none
+    | "eocLeaf" => match rest with
+      | i :: j :: i' :: j' :: v => if v.length == d then some (.eocLeaf t (nat! i) (nat! j) (nat! i') (nat! j') (fls2 v)) else none
+      | _ => none
+    | "eocRoot" => match rest with
+      | i :: i' :: v => if v.length == d then some (.eocRoot t (nat! i) (nat! i') (fls2 v)) else none
+      | _ => none
+    | "toLeaf" => match rest with
+      | [i, c] => some (.toLeaf t (nat! i) (nat! c))
+      | _ => none
+    | "toRoot" => match rest with
+      | [i] => some (.toRoot t (nat! i))
+      | _ => none
+    | _ => none
+  | _ => none
+
+private def dumpComps (cs : List (CObj Float)) : String :=
+  " | ".intercalate (cs.flatMap (fun c => (c.root :: c.leaves).map showUnit2))
+
+/-- component `comp2`: stateless requests
+`ev d L.. thr ncomp {n root leaf_1 … leaf_n}.. kind args..` -> all units of the composite objects after the event;
+`dipole d L.. c.. dir.. s` / `water d L.. c.. a.. b..` -> leaf positions of the random node creators;
+`weight n` -> `1 / n`. -/
+def comp2Comp : Comp := Comp.pure fun a =>
+  match a with
+  | "ev" :: d :: rest =>
+    let d := nat! d
+    let L := fls2 (rest.take d)
+    match rest.drop d with
+    | thr :: nc :: r =>
+      match parseComps d (nat! nc) r with
+      | some (cs, evs) =>
+        match parseEv d evs with
+        | some e => dumpComps (step Ops.float (smallThr Ops.float (fl thr)) L cs e)
+        | none => "bad-op"
+      | none => "bad-op"
+    | _ => "bad-op"
+  | "dipole" :: d :: rest =>
+    let d := nat! d
+    match rest.drop (3 * d) with
+    | [s] =>
+      let (p, q) := dipoleLeaves Ops.float (fls2 (rest.take d)) (fls2 ((rest.drop d).take d)) (fls2 ((rest.drop (2*d)).take d)) (fl s)
+      joinSp ((p ++ q).map bits)
+    | _ => "bad-op"
+  | "water" :: d :: rest =>
+    let d := nat! d
+    if rest.length != 4 * d then "bad-op" else
+    let (h1, ox, h2) := waterLeaves Ops.float (fls2 (rest.take d)) (fls2 ((rest.drop d).take d)) (fls2 ((rest.drop (2*d)).take d))
+      (fls2 ((rest.drop (3*d)).take d))
+    joinSp ((h1 ++ ox ++ h2).map bits)
+  | ["weight", n] => bits (weight Ops.float (⟨⟨[], none, none⟩, List.replicate (nat! n) ⟨[], none, none⟩⟩ : CObj Float))
+  | _ => "bad-op"
 end JF.Driver
